@@ -175,3 +175,21 @@ Proof.
   - args4 args; try reflexivity; cbn; symmetry; apply tie_pipe3.
   - symmetry. apply tie_pipe1.
 Qed.
+
+(** ** The generated __init__ works with the field's OWN converter object: a plain callable is
+    wrapped in a new [Converter(a.converter)] (both flags false) around exactly that object, a
+    Converter instance is used as it is - which is what [init_convert] does. *)
+Lemma tie_init_wrap :
+  t_converter_default_flags = (false, false) /\
+  (forall has isconv, t_init_wrap has isconv = if has && negb isconv then WNew else WSame) /\
+  forall app c v self fld n,
+    init_convert app (Some c) v self fld n
+    = match t_init_wrap true (is_converter c) with
+      | WNew => let '(ts, tf) := t_converter_default_flags in
+                fmt_converter_call ts tf (call_obj app c) v self fld n
+      | WSame => let '(ts, tf) := flags_of c in fmt_converter_call ts tf (inner_of app c) v self fld n
+      end.
+Proof.
+  split; [reflexivity|]. split; [intros [] []; reflexivity|].
+  intros app c v self fld n. unfold init_convert. destruct (is_converter c); reflexivity.
+Qed.
